@@ -36,6 +36,9 @@ type scanSpec struct {
 	// EmptyFragments allows zero-cell partial results after a non-empty
 	// fragment of the same row.
 	EmptyFragments bool `json:"empty_fragments,omitempty"`
+	// EmptyFirst allows a zero-cell partial result BEFORE the first fragment of a row (and as the
+	// very first result of a scan): structurally valid, carries nothing.
+	EmptyFirst bool `json:"empty_first,omitempty"`
 	// Twice runs the same scan a second time against the same cached region objects
 	// (a scan must not leave anything behind that changes the next one).
 	Twice bool `json:"twice,omitempty"`
@@ -139,6 +142,7 @@ type scanModel struct {
 	trace    []string
 	// observations
 	multiRegion, fragmented, heartbeats, boundEqBoundary, earlyNoMore bool
+	emptyFirst           int
 	closeReqs, renewReqs                                              int
 }
 
@@ -381,6 +385,10 @@ func (m *scanModel) respond(sc *srvScanner, req *pb.ScanRequest) *pb.ScanRespons
 			if sc.lastFlag {
 				m.fragmented = true
 			}
+			if m.spec.EmptyFirst && m.tape()%4 == 1 {
+				emit(nil, true)
+				m.emptyFirst++
+			}
 		}
 		// how many fragments of this row go into this response
 		stopEarly := false
@@ -479,10 +487,15 @@ func newScanCall(ctx context.Context, s scanSpec, extra ...func(hrpc.Call) error
 // rowAcc accumulates results into rows for comparison with the model.
 type rowAcc struct {
 	rows [][]*hrpc.Cell
+	// skipEmpty: results without cells carry nothing (hostile-fragment runs)
+	skipEmpty bool
 }
 
 func (a *rowAcc) add(res *hrpc.Result, partials bool) {
 	if res == nil {
+		return
+	}
+	if len(res.Cells) == 0 && a.skipEmpty {
 		return
 	}
 	if partials && len(a.rows) > 0 {
